@@ -63,7 +63,8 @@ class C16(CheckBase):
             "invariants): every surface appears under exactly one number; numbers never change when options are "
             "appended; first policy = lowest free numbers in order; physical policy = two-sided image at n,n+2 and "
             "no surface on the opposite side (n<->n+-2 within a block of 4) of a drive held by another image; "
-            "--show-config agrees; cat k / type :k.$.F / --drive k info return the title/body unique to the surface "
+            "--show-config agrees; cat k / type :k.$.F / --drive k info / --drive k type F, and the explicit forms under a "
+            "different current drive (--drive j cat k, --drive j type|dump|list :k.$.F) return the title/body unique to the surface "
             "at k and fail for unoccupied k.  Enumerated: all histories of <= 3 (quick) / <= 4 (thorough) attachments over {ssd,dsd} x "
             "policy switches.  Non-trivial: a history with a policy switch, or >= 3 images, or an MMB")
     assumptions = ("where exactly the physical policy places an image is not stated by the property, so only its "
@@ -239,7 +240,17 @@ class C16(CheckBase):
             for k in probes:
                 exp = final.get(k)
                 runs = [(["cat", str(k)], "cat"), (["type", "--binary", ":%d.$.F" % k], "type"),
-                        (["--drive", str(k), "info", "F"], "info")]
+                        (["--drive", str(k), "info", "F"], "info"),
+                        (["--drive", str(k), "type", "--binary", "F"], "type")]
+                # an explicit address wins over a different current drive j (another occupied drive)
+                others = [j for j in sorted(final) if j != k]
+                if others:
+                    j = others[(k + case["probes"][0]) % len(others)]
+                    runs += [(["--drive", str(j), "cat", str(k)], "cat"),
+                             (["--drive", str(j), "type", "--binary", ":%d.$.F" % k], "type"),
+                             (["--drive", str(j), "dump", ":%d.$.F" % k], "dump"),
+                             (["--drive", str(j), "list", ":%d.$.F" % k], "list")]
+                    v.classes.append("explicit-address-vs-other-current-drive")
                 for args, what in runs:
                     if args[0] == "--drive":
                         argv = [dfs] + opts + args
@@ -261,6 +272,10 @@ class C16(CheckBase):
                         ok = ok and r.stdout.startswith(title) and (b"Drive %d" % k) in r.stdout
                     elif what == "type":
                         ok = ok and r.stdout == body
+                    elif what == "dump":
+                        ok = ok and r.stdout == disc.render_dump(body)
+                    elif what == "list":
+                        ok = ok and r.stdout == disc.render_list(body)
                     else:
                         ok = ok and r.stdout.startswith(b"$.F")
                     if not ok:
